@@ -273,9 +273,9 @@ func checkCmd(id, tier string) int {
 			"real": []string{"participle parser, grammar builder, nodes, context (instrumented copy of /repo working tree)", "lexer: stateful, text/scanner, PeekingLexer, generated basic lexer", "lexers generated at check time by the working tree's cmd/participle", "ebnf package"},
 			"stub": []string{"io.Reader / io.Writer endpoints (SimReader, SimWriter)", "source lexers and definition wrappers (SimDef)", "user callbacks (Parseable, Capture, TextUnmarshaler, ParseTypeWith, Mapper)", "the Go scheduler's choice of runnable goroutine (replaced by the tape-driven scheduler)", "Go's randomised map iteration order (replaced by sorted-then-tape-permuted order)"},
 		},
-		"determinism_selfcheck":              map[string]interface{}{"seeds": selfN, "processes": len(selfDigests), "gomaxprocs": []int{1, 4, 16}, "mismatches": selfMismatch},
-		"degraded":                           bi.degraded,
-		"instrumentation":                    bi.instrSummary,
+		"determinism_selfcheck": map[string]interface{}{"seeds": selfN, "processes": len(selfDigests), "gomaxprocs": []int{1, 4, 16}, "mismatches": selfMismatch},
+		"degraded":              bi.degraded,
+		"instrumentation":       bi.instrSummary,
 		// a handful at most, and which ones are reached depends on how many runs fit into the batch:
 		// reported as text so that nobody reads it as a measure of work done
 		"discarded_runs":                     fmt.Sprintf("%d of %d runs dropped unjudged (stall guard or trace budget hit where no clause is about it)", m.Discarded, m.Evaluations),
